@@ -24,6 +24,10 @@ import (
 var defaultErrorHandler = builtin(defaultErrorHandlerFn)
 
 func defaultErrorHandlerFn(intp *Interpreter) error {
+	if len(intp.errors) == 0 {
+		// called directly by a program, not in response to an error
+		return intp.e(eUnregistered, "error handler called without an error")
+	}
 	return intp.errors[len(intp.errors)-1]
 }
 
